@@ -943,6 +943,13 @@ impl Database {
             })
             .collect();
 
+        let unique_index_names: std::collections::HashSet<String> = table_def
+            .indexes()
+            .iter()
+            .filter(|idx| idx.is_unique())
+            .map(|idx| idx.name().to_string())
+            .collect();
+
         let hnsw_indexes: Vec<(String, usize)> = table_def
             .indexes()
             .iter()
@@ -1763,7 +1770,7 @@ impl Database {
 
                 let mut index_btree = BTree::new(&mut *index_storage, index_root_page)?;
 
-                for (_row_key, _old_value, new_row_values, old_row_values, _old_toast) in
+                for (row_key, _old_value, new_row_values, old_row_values, _old_toast) in
                     &rows_to_update
                 {
                     if let Some(old_value) = old_row_values.get(*col_idx) {
@@ -1778,15 +1785,7 @@ impl Database {
                         if !new_value.is_null() {
                             key_buf.clear();
                             Self::encode_value_as_key(new_value, &mut key_buf);
-                            if let Some(pk_idx) = columns
-                                .iter()
-                                .position(|c| c.has_constraint(&Constraint::PrimaryKey))
-                            {
-                                if let Some(OwnedValue::Int(pk_val)) = new_row_values.get(pk_idx) {
-                                    let row_id_bytes = (*pk_val as u64).to_be_bytes();
-                                    let _ = index_btree.insert(&key_buf, &row_id_bytes);
-                                }
-                            }
+                            let _ = index_btree.insert(&key_buf, row_key);
                         }
                     }
                 }
@@ -1816,19 +1815,24 @@ impl Database {
 
                 let mut index_btree = BTree::new(&mut *index_storage, index_root_page)?;
 
-                for (_row_key, _old_value, new_row_values, old_row_values, _old_toast) in
+                let is_unique_index = unique_index_names.contains(index_name.as_str());
+
+                for (row_key, _old_value, new_row_values, old_row_values, _old_toast) in
                     &rows_to_update
                 {
                     let old_all_non_null = col_indices
                         .iter()
                         .all(|&idx| old_row_values.get(idx).is_some_and(|v| !v.is_null()));
 
-                    if old_all_non_null {
+                    if old_all_non_null || !is_unique_index {
                         key_buf.clear();
                         for &col_idx in col_indices {
                             if let Some(value) = old_row_values.get(col_idx) {
                                 Self::encode_value_as_key(value, &mut key_buf);
                             }
+                        }
+                        if !is_unique_index {
+                            key_buf.extend_from_slice(row_key);
                         }
                         let _ = index_btree.delete(&key_buf);
                     }
@@ -1837,22 +1841,17 @@ impl Database {
                         .iter()
                         .all(|&idx| new_row_values.get(idx).is_some_and(|v| !v.is_null()));
 
-                    if new_all_non_null {
+                    if new_all_non_null || !is_unique_index {
                         key_buf.clear();
                         for &col_idx in col_indices {
                             if let Some(value) = new_row_values.get(col_idx) {
                                 Self::encode_value_as_key(value, &mut key_buf);
                             }
                         }
-                        if let Some(pk_idx) = columns
-                            .iter()
-                            .position(|c| c.has_constraint(&Constraint::PrimaryKey))
-                        {
-                            if let Some(OwnedValue::Int(pk_val)) = new_row_values.get(pk_idx) {
-                                let row_id_bytes = (*pk_val as u64).to_be_bytes();
-                                let _ = index_btree.insert(&key_buf, &row_id_bytes);
-                            }
+                        if !is_unique_index {
+                            key_buf.extend_from_slice(row_key);
                         }
+                        let _ = index_btree.insert(&key_buf, row_key);
                     }
                 }
             }
